@@ -3,9 +3,10 @@ from .. import common as C
 from ..lbgen import enc
 
 ID = "C16"
-MODULES = ["Helios.Props.C16"]
+MODULES = ["Helios.Props.C16", "Helios.Props.C01"]
 THEOREMS = ["Helios.Ids.id_consistent", "Helios.Ids.supplied_unchanged", "Helios.Ids.blank_generated",
-            "Helios.Ids.disabled_untouched", "Helios.Ids.id_injective", "Helios.Http.id_on_every_path"]
+            "Helios.Ids.disabled_untouched", "Helios.Ids.id_injective", "Helios.Http.id_on_every_path",
+            "Helios.Proxy.via_transparent"]
 VALUES = ["abc", " lead", "trail\t", "abc ", " abc", " \t ", " ", " ", "x" * 300, "id with spaces", "ünïcödé",
           "req_0123", "a,b", "%41", "-", "none", "none", "none"]
 HEADERS = [("-", "-"), ("-", "-"), ("X-Correlation-Id", "X-B3-Traceid"), ("x-my-req", "-"), (" X-Padded ", "traceparent")]
